@@ -294,7 +294,15 @@ fn updater(rec: Rec, log: BLog, plan: Value, ops: Vec<Value>, gate: RegistryGate
                 if name == "register" {
                     continue;
                 }
-                let v = jf(op, "v", 0.0);
+                // `v`: the value as the oracle counts it; `v_call`: what is handed to the handle (a histogram sample
+                // that is negative, NaN or -inf is recorded as 0, +inf as the largest value)
+                let (v, v_call) = match js(op, "special", "") {
+                    "nan" => (0.0, f64::NAN),
+                    "ninf" => (0.0, f64::NEG_INFINITY),
+                    "neg" => (0.0, -1.0 - jf(op, "v", 0.0).abs()),
+                    "inf" => (1e300, f64::INFINITY),
+                    _ => (jf(op, "v", 0.0), jf(op, "v", 0.0)),
+                };
                 let opn: &'static str = match name {
                     "inc" => "inc",
                     "set" => "set",
@@ -310,8 +318,8 @@ fn updater(rec: Rec, log: BLog, plan: Value, ops: Vec<Value>, gate: RegistryGate
                     (Handle::G(g), "set") => g.set(v),
                     (Handle::G(g), "ginc") => g.increment(v),
                     (Handle::G(g), "gdec") => g.decrement(v),
-                    (Handle::H(h), "rec") => h.record(v),
-                    (Handle::H(h), "recm") => h.record_many(v, n as usize),
+                    (Handle::H(h), "rec") => h.record(v_call),
+                    (Handle::H(h), "recm") => h.record_many(v_call, n as usize),
                     _ => {}
                 }
                 log.log(BK::UpdEnd { key: ki, op: opn, v, n });
@@ -324,13 +332,22 @@ fn updater(rec: Rec, log: BLog, plan: Value, ops: Vec<Value>, gate: RegistryGate
 fn do_readout(rec: &Rec, log: &BLog, rid: u64, wall: &AtomicI64, gate: &RegistryGate) {
     log.log(BK::ReadBegin { rid, wall_ns: wall.load(Ordering::SeqCst) });
     let excl = gate.lock.write().unwrap_or_else(|e| e.into_inner());
-    let entry = rec.readout();
+    let mut entry = rec.readout();
     drop(excl);
+    if STRIP_TS.load(Ordering::SeqCst) {
+        // a readout embedded in another entry: the caller removes the timestamp, everything else stays
+        assert!(entry.timestamp().is_some());
+        entry.remove_timestamp();
+    }
     let out = replay_entry(&entry);
     log.log(BK::ReadEnd { rid, out });
 }
 
+/// plan key `strip_timestamp` of the run in progress (scenario `bridge`)
+static STRIP_TS: std::sync::atomic::AtomicBool = std::sync::atomic::AtomicBool::new(false);
+
 fn bridge_main(plan: &Value, log: BLog) {
+    STRIP_TS.store(jb(plan, "strip_timestamp", false), Ordering::SeqCst);
     let rec: Rec = MetricRecorder::new_with_emit_zero_counters(jb(plan, "emit_zero", false));
     for d in ja(plan, "describe_first") {
         if let Some(n) = d.as_str() {
@@ -418,10 +435,15 @@ pub fn check_c20(plan: &Value, h: &[BEv]) -> Option<Violation> {
 
     // ---- per readout: shape, names, dimensions, units, timestamp
     for r in &rds {
-        if r.out.timestamps.len() != 1 {
+        let strip = jb(plan, "strip_timestamp", false);
+        if strip {
+            if !r.out.timestamps.is_empty() {
+                return Some(Violation::new("readout_timestamp", format!("readout {} wrote a timestamp although it had been removed", r.rid)));
+            }
+        } else if r.out.timestamps.len() != 1 {
             return Some(Violation::new("readout_timestamp", format!("readout {} wrote {} timestamps, expected exactly one", r.rid, r.out.timestamps.len())));
         }
-        if r.out.timestamps[0] != r.wall_ns as i128 {
+        if !strip && r.out.timestamps[0] != r.wall_ns as i128 {
             return Some(Violation::new("readout_timestamp", format!("readout {} carries timestamp {} ns, the time source said {} ns when it was taken", r.rid, r.out.timestamps[0], r.wall_ns)));
         }
         if !r.out.split_cfg {
@@ -462,12 +484,27 @@ pub fn check_c20(plan: &Value, h: &[BEv]) -> Option<Violation> {
                     _ => {}
                 }
             }
+            // A value that shows an update (non-zero counter delta, histogram sample, non-zero gauge) was read after
+            // that update began; a description completed before the key's *first* update began is therefore
+            // older than the value and must be visible too, even if it completed after the readout began.
+            let shows_update = m.obs.iter().any(|o| match o {
+                Obs::U(v) => *v != 0,
+                Obs::F(v) => *v != 0.0,
+                Obs::R { n, .. } => *n > 0,
+            });
+            let first_upd = h.iter().find(|e| matches!(&e.k, BK::UpdBegin { key, .. } if *key == ki)).map(|e| e.seq);
+            let mut reference = r.inv;
+            if let (true, Some(fu)) = (shows_update, first_upd) {
+                if let Some(d) = descs.iter().filter(|d| d.1 < fu).last() {
+                    reference = reference.max(d.1 + 1);
+                }
+            }
             let mut allowed: Vec<&str> = vec![];
-            match descs.iter().filter(|d| d.1 < r.inv).last() {
+            match descs.iter().filter(|d| d.1 < reference).last() {
                 Some(d) => allowed.push(d.2),
                 None => allowed.push("None"),
             }
-            for d in descs.iter().filter(|d| d.0 < r.ret && d.1 >= r.inv) {
+            for d in descs.iter().filter(|d| d.0 < r.ret && d.1 >= reference) {
                 allowed.push(d.2);
             }
             if !allowed.contains(&m.unit.as_str()) {
@@ -745,10 +782,12 @@ pub fn gen_c20(rng: &mut Rng, tier: Tier) -> Value {
                     }
                 }
                 "h" => {
+                    // 6 %: a sample outside the histogram's domain (negative, NaN, infinite)
+                    let special = if rng.chance(0.06) { *rng.pick(&["nan", "ninf", "neg", "inf"]) } else { "" };
                     if rng.chance(0.2) {
-                        t.push(json!({"op":"recm","key":ki,"v":hist_value(rng),"n":*rng.pick(&[0u64, 1, 2, 3, 17]),"fresh":fresh}));
+                        t.push(json!({"op":"recm","key":ki,"v":hist_value(rng),"n":*rng.pick(&[0u64, 1, 2, 3, 17]),"fresh":fresh,"special":special}));
                     } else {
-                        t.push(json!({"op":"rec","key":ki,"v":hist_value(rng),"fresh":fresh}));
+                        t.push(json!({"op":"rec","key":ki,"v":hist_value(rng),"fresh":fresh,"special":special}));
                     }
                 }
                 "gs" => {
@@ -816,7 +855,7 @@ pub fn gen_c20(rng: &mut Rng, tier: Tier) -> Value {
     let est = 40 + 12 * threads.iter().map(|t| t.len() as u64).sum::<u64>() + 10 * nr * keys.len() as u64;
     let sched = gen_sched(rng, &SchedOpts { est_choices: est, threads: nthreads + 1, jump_max_ns: 0, stall_clock_max_ns: 0, max_steps: 40_000 });
     json!({
-        "sched": sched, "emit_zero": rng.chance(0.4), "via_local": rng.chance(0.3), "keys": keys, "units": units, "units2": units2,
+        "sched": sched, "emit_zero": rng.chance(0.4), "strip_timestamp": rng.chance(0.15), "via_local": rng.chance(0.3), "keys": keys, "units": units, "units2": units2,
         "describe_first": describe_first, "threads": threads, "reporter": reporter, "second_final": rng.chance(0.3),
     })
 }
@@ -1125,6 +1164,7 @@ pub fn gen_c20_reporter(rng: &mut Rng, tier: Tier) -> Value {
     plan["wall_off"] = json!(rng.below(1_000_000_000_000));
     plan["flush_before_shutdown"] = json!(rng.chance(0.3));
     plan["sync_handle"] = json!(rng.chance(0.4));
+    plan["strip_timestamp"] = json!(false);
     // a quarter of the runs: the reporter owns a BackgroundQueue around a stream (`metrics_io_stream`)
     plan["io_stream"] = json!(rng.chance(0.25));
     plan.as_object_mut().unwrap().remove("reporter");
